@@ -61,8 +61,9 @@ type fstore struct {
 	order    []int // ranking used by Query: record at log position i sorts by order[i%len(order)]
 	evseq    int
 	// bookkeeping for signatures
-	lastFailed []string // store ops that failed since clearFailed()
-	oplog      []string
+	lastFailed     []string // store ops that failed since clearFailed()
+	lastFailedKeys []string // the same as "<op> <key>"
+	oplog          []string
 }
 
 func newFstore(contents []rec, order []int) *fstore {
@@ -92,6 +93,7 @@ func (s *fstore) begin(name, key string) error {
 	s.oplog = append(s.oplog, fmt.Sprintf("#%d %s %s", s.nops, name, key))
 	if s.failAt[s.nops] {
 		s.lastFailed = append(s.lastFailed, name)
+		s.lastFailedKeys = append(s.lastFailedKeys, name+" "+key)
 		s.end()
 		return errInjected
 	}
@@ -281,7 +283,15 @@ func (s *fstore) clearFailed() []string {
 	defer s.mu.Unlock()
 	f := s.lastFailed
 	s.lastFailed = nil
+	s.lastFailedKeys = nil
 	return f
+}
+
+// failedKeys: "<op> <key>" of the store ops that failed since clearFailed() (call before clearFailed).
+func (s *fstore) failedKeys() []string {
+	s.mu.Lock()
+	defer s.mu.Unlock()
+	return append([]string(nil), s.lastFailedKeys...)
 }
 
 func (s *fstore) seq() int {
